@@ -1,5 +1,187 @@
 import PkVerif.Drv.Common
-/-! `pkmodel-c18`: stub (property not built yet). -/
+import PkVerif.Model.BlobHTTP
+import PkVerif.Gen.Facts
+import PkVerif.Gen.C18
+/-! `pkmodel-c18`: the HTTP blob protocol (server handlers over the reference map, client loops).
+
+    cfg <sto> <idx> <root>                              -> ok      (sto=mem: limit 0 means "no limit")
+    put <t> <true|none> <len|chunked> <body>            -> 204 | 400 | 500
+    mp [<name> <true|none> <body> [| …]]                -> 200 <k:n …> err=0|1
+    stat <get|post> <ver> <maxwait> <v1> <v2> …         -> 200 <k:n …> | 400 <method|noversion|toomany|bogus>
+    get <t> | head <t>                                  -> 200 <len> <body|-> | 404 | 400
+    enum <after> <limit> <maxwait>                      -> 200 <k:n …> cont=<k|-> | 400
+    enumpoll <limit> <maxwait> <t> <true|none> <body>   -> (enum answer) put=<code>   (the PUT lands during the wait)
+    statpoll <maxwait> <t> <true|none> <body> <v1> …    -> (stat answer) put=<code>
+    cenum <batch|-> <after> <optlimit> <waitsec>        -> ok|err <k:n …>      (pkg/client EnumerateBlobsOpts)
+    ccache on|off                                       -> ok
+    cstat <k1> …                                        -> ok|err <k:n …>      (sorted)
+    cupload <k> <true|none> <body> <skipstat 0|1>       -> ok <size> skipped=0|1 | err
+    cfetch <k>                                          -> ok <size> <body> | notexist | err
+All byte strings are lower hex, `-` = empty.  `true` is the content the ref denotes ("bytes hash to the
+ref" = equality with it), `none` = nothing in play hashes to it.
+-/
 namespace Pk.Drv.C18
-def machine : Machine := { σ := Unit, init := (), step := fun s _ => (s, "bad-op") }
+open Pk Pk.SMap Pk.RefMap Pk.BlobHTTP
+
+def tbl : Pk.Ref.Tbl := ⟨Gen.refSizes, Gen.testRefTypes, Gen.maxOtherDigestLen⟩
+
+def cfg : Cfg :=
+  { maxEnumerate := Gen.enumDefaultMax, defaultEnum := Gen.enumDefaultSize, maxStat := Gen.maxStatBlobs,
+    maxWait := 30, maxBlob := Gen.maxBlobSize, clientBatch := Gen.clientEnumBatch }
+
+structure St where
+  zeroAll : Bool
+  m : SMap Bytes
+  have_ : Have
+
+def matcher (t : String) : Option (Bytes → Bool) :=
+  if t == "none" then some (fun _ => false)
+  else (hexArg t).map (fun tb => fun b => b == tb)
+
+def showPairs (l : List (Bytes × Nat)) : String :=
+  " ".intercalate (l.map (fun p => s!"{toHexString p.1}:{p.2}"))
+
+def lePair (a b : Bytes × Nat) : Bool :=
+  if ltB a.1 b.1 then true else if ltB b.1 a.1 then false else a.2 ≤ b.2
+
+def sortPairs (l : List (Bytes × Nat)) : List (Bytes × Nat) := l.mergeSort lePair
+
+def join2 (a b : String) : String := if b.isEmpty then a else a ++ " " ++ b
+
+def showCode : Recv.Http → String
+  | .noContent204 => "204" | .badRequest400 => "400" | .serverError500 => "500"
+
+def showEnum : EnumResp → String
+  | .badRequest => "400"
+  | .ok l ca => join2 (join2 "200" (showPairs l)) ("cont=" ++ toHexString ca)
+
+def showStat : StatResp → String
+  | .bad .method => "400 method"
+  | .bad .noVersion => "400 noversion"
+  | .bad .tooMany => "400 toomany"
+  | .bad .bogus => "400 bogus"
+  | .ok l => join2 "200" (showPairs (sortPairs l))
+
+/-- a path element the harness can request without the mux or the router stepping in -/
+def plainElem (t : Bytes) : Bool :=
+  !t.contains 47 && t != ofString "." && t != ofString ".." &&
+  t != ofString "enumerate-blobs" && t != ofString "stat" && t != ofString "ws"
+
+def splitBar (ws : List String) : List (List String) :=
+  ws.foldr (fun w acc => if w == "|" then [] :: acc else
+    match acc with
+    | [] => [[w]]
+    | g :: gs => (w :: g) :: gs) [[]]
+
+def parseMPart : List String → Option MPart
+  | [n, t, b] =>
+    match hexArg n, matcher t, hexArg b with
+    | some n, some m, some b => some ⟨n, m, b⟩
+    | _, _, _ => none
+  | _ => none
+
+def doPut (st : St) (t tr cl body : String) : Option (St × String) :=
+  match hexArg t, matcher tr, hexArg body with
+  | some t, some mt, some body =>
+    if !plainElem t then none else
+    let clv : Option (Option Nat) :=
+      if cl == "chunked" then some none else if cl == "len" then some (some body.length) else none
+    match clv with
+    | none => none
+    | some clv =>
+      let r := handlePut cfg tbl st.m t clv mt body
+      some ({ st with m := r.1 }, showCode r.2)
+  | _, _, _ => none
+
+def step (s : Option St) (ws : List String) : Option St × String :=
+  match s, ws with
+  | _, ["cfg", sto, _idx, _root] => (some ⟨sto == "mem", [], none⟩, "ok")
+  | none, _ => (none, "bad-op")
+  | some st, ["put", t, tr, cl, body] =>
+    (match doPut st t tr cl body with
+     | some (st', o) => (some st', o)
+     | none => (s, "bad-op"))
+  | some st, "mp" :: rest =>
+    (match (if rest.isEmpty then some [] else (splitBar rest).mapM parseMPart) with
+     | some parts =>
+       let r := handleMultipart cfg tbl st.m parts
+       (some { st with m := r.1 },
+        join2 (join2 "200" (showPairs r.2.received)) (if r.2.errorText then "err=1" else "err=0"))
+     | none => (s, "bad-op"))
+  | some st, "stat" :: meth :: ver :: mw :: vs =>
+    (match hexArg ver, hexArg mw, vs.mapM hexArg with
+     | some ver, some mw, some vs =>
+       if meth != "get" && meth != "post" then (s, "bad-op") else
+       (s, showStat (handleStat cfg tbl st.m [st.m] ⟨true, ver, vs, mw⟩))
+     | _, _, _ => (s, "bad-op"))
+  | some st, ["get", t] =>
+    (match hexArg t with
+     | some t =>
+       if !plainElem t then (s, "bad-op") else
+       (s, match handleGet tbl st.m t with
+           | .badRequest => "400" | .notFound => "404"
+           | .ok b => s!"200 {b.length} {toHexString b}")
+     | none => (s, "bad-op"))
+  | some st, ["head", t] =>
+    (match hexArg t with
+     | some t =>
+       if !plainElem t then (s, "bad-op") else
+       (s, match handleGet tbl st.m t with
+           | .badRequest => "400" | .notFound => "404"
+           | .ok b => s!"200 {b.length} -")
+     | none => (s, "bad-op"))
+  | some st, ["enum", a, l, mw] =>
+    (match hexArg a, hexArg l, hexArg mw with
+     | some a, some l, some mw => (s, showEnum (handleEnumerateBlobs cfg st.zeroAll st.m [] ⟨a, l, mw⟩))
+     | _, _, _ => (s, "bad-op"))
+  | some st, ["enumpoll", l, mw, t, tr, body] =>
+    (match hexArg l, hexArg mw, doPut st t tr "len" body with
+     | some l, some mw, some (st', code) =>
+       (some st', showEnum (handleEnumerateBlobs cfg st.zeroAll st.m [st'.m] ⟨[], l, mw⟩) ++ " put=" ++ code)
+     | _, _, _ => (s, "bad-op"))
+  | some st, "statpoll" :: mw :: t :: tr :: body :: vs =>
+    (match hexArg mw, doPut st t tr "len" body, vs.mapM hexArg with
+     | some mw, some (st', code), some vs =>
+       (some st', showStat (handleStat cfg tbl st.m [st'.m] ⟨true, [49], vs, mw⟩) ++ " put=" ++ code)
+     | _, _, _ => (s, "bad-op"))
+  | some st, ["cenum", batch, a, ol, wsec] =>
+    (match hexArg a, ol.toNat?, wsec.toNat?,
+        (if batch == "-" then some (natToDec cfg.clientBatch) else hexArg batch) with
+     | some a, some ol, some wsec, some batch =>
+       let srv := fun r => handleEnumerateBlobs cfg st.zeroAll st.m [] r
+       let okRef := fun k => (Pk.Ref.parse tbl k true).isSome
+       let r := clientEnumerate srv okRef batch ⟨a, wsec, ol⟩ (st.m.length + 2)
+       (s, join2 (if r.ok then "ok" else "err") (showPairs r.sent))
+     | _, _, _, _ => (s, "bad-op"))
+  | some st, ["ccache", "on"] => (some { st with have_ := some [] }, "ok")
+  | some st, ["ccache", "off"] => (some { st with have_ := none }, "ok")
+  | some st, "cstat" :: ks =>
+    (match ks.mapM (fun k => (hexArg k).bind (fun k => (refOf tbl k).map (·.1))) with
+     | some ks =>
+       let r := clientStatBlobs (fun q => handleStat cfg tbl st.m [] q) st.have_ ks
+       (some { st with have_ := r.1 }, join2 (if r.2.2 then "ok" else "err") (showPairs (sortPairs r.2.1)))
+     | none => (s, "bad-op"))
+  | some st, ["cupload", k, tr, body, ss] =>
+    (match (hexArg k).bind (fun k => (refOf tbl k).map (·.1)), matcher tr, hexArg body with
+     | some k, some mt, some body =>
+       if ss != "0" && ss != "1" then (s, "bad-op") else
+       let r := clientUpload cfg (fun q => handleStat cfg tbl st.m [] q) (handleMultipart cfg tbl st.m)
+         st.m st.have_ k mt body (ss == "1")
+       (some { st with m := r.1, have_ := r.2.1 },
+        match r.2.2 with
+        | .ok n sk => s!"ok {n} skipped={if sk then 1 else 0}"
+        | .err => "err")
+     | _, _, _ => (s, "bad-op"))
+  | some st, ["cfetch", k] =>
+    (match (hexArg k).bind (fun k => (refOf tbl k).map (·.1)) with
+     | some k =>
+       (s, match clientFetch (handleGet tbl st.m) k with
+           | .ok b n => s!"ok {n} {toHexString b}"
+           | .notExist => "notexist"
+           | .err => "err")
+     | none => (s, "bad-op"))
+  | _, _ => (s, "bad-op")
+
+def machine : Machine := { σ := Option St, init := none, step := step }
+
 end Pk.Drv.C18
